@@ -4,7 +4,7 @@
    history theorems. *)
 From TV Require Import Base.Prelude Gen.Consts Spec.Ordered Model.Datetime Model.Numbers Model.Tree.
 From TV Require Import Spec.EditSpec Model.Edit Proofs.ContainersOrder Proofs.EditRefineBase.
-From Coq Require Import Sorting.Permutation.
+From Coq Require Import Sorting.Permutation Lia.
 
 (* ==================================================================================== *)
 (** * Induction over value / item / tbl, and over payloads *)
@@ -279,6 +279,58 @@ Proof.
   - apply (proj2 sort_values_abs t).
 Qed.
 
+(* -- sort_by -- *)
+Definition sort_by_child (cm : scmp) (il : bool) (kv : bytes * plain) : bytes * plain :=
+  match kv with
+  | (k, c) => (k, match c with
+                  | PTab il' true _ => if Bool.eqb il il' then spec_sort_by cm c else c
+                  | _ => c
+                  end)
+  end.
+Lemma spec_sort_by_tab cm il d l :
+  spec_sort_by cm (PTab il d l) = PTab il d (stable_sort (scmp_le cm il) (map (sort_by_child cm il) l)).
+Proof. reflexivity. Qed.
+
+Lemma sort_by_abs cm :
+  (forall v, abs_value (inline_sort_by cm v) = spec_sort_by cm (abs_value v)) /\
+  (forall t, abs_tbl (tbl_sort_by cm t) = spec_sort_by cm (abs_tbl t)).
+Proof.
+  pose (Pv := fun v => abs_value (inline_sort_by cm v) = spec_sort_by cm (abs_value v)).
+  pose (Pt := fun t => abs_tbl (tbl_sort_by cm t) = spec_sort_by cm (abs_tbl t)).
+  pose (Pi := fun i => match i with IValue v => Pv v | ITable t => Pt t | _ => True end).
+  assert (Hinl : forall items pre im dt d sp,
+             Forall (fun kv => Pi (snd kv)) items -> Pv (VInline items pre im dt d sp)).
+  { intros items pre im dt d sp IH. unfold Pv. simpl inline_sort_by.
+    rewrite !abs_inline_eq, spec_sort_by_tab, (absl_sort_by _ _ _ (icmp_le_abs cm)). f_equal. f_equal.
+    unfold absl. rewrite !map_map. apply map_ext_in. intros [k i] Hin.
+    rewrite Forall_forall in IH. specialize (IH _ Hin). simpl in IH.
+    destruct i as [|[s r d0|vals tr c d0 sp0|items0 pre0 im0 dt0 d0 sp0]|[items0 d0 im0 dt0 p0 sp0]|]; try reflexivity.
+    + destruct dt0; [|reflexivity]. simpl. f_equal. exact IH.
+    + destruct dt0; reflexivity. }
+  assert (Htb : forall items d im dt p sp,
+             Forall (fun kv => Pi (snd kv)) items -> Pt (Tbl items d im dt p sp)).
+  { intros items d im dt p sp IH. unfold Pt. simpl tbl_sort_by.
+    rewrite !abs_tbl_eq, spec_sort_by_tab, (absl_sort_by _ _ _ (tcmp_le_abs cm)). f_equal. f_equal.
+    unfold absl. rewrite !map_map. apply map_ext_in. intros [k i] Hin.
+    rewrite Forall_forall in IH. specialize (IH _ Hin). simpl in IH.
+    destruct i as [|[s r d0|vals tr c d0 sp0|items0 pre0 im0 dt0 d0 sp0]|[items0 d0 im0 dt0 p0 sp0]|]; try reflexivity.
+    + destruct dt0; reflexivity.
+    + destruct dt0; [|reflexivity]. simpl. f_equal. exact IH. }
+  split.
+  - apply (value_ind4 Pv Pi Pt); unfold Pi; try (intros; exact I); try (intros; assumption); try exact Hinl; try exact Htb;
+      unfold Pv; reflexivity.
+  - apply (tbl_ind4 Pv Pi Pt); unfold Pi; try (intros; exact I); try (intros; assumption); try exact Hinl; try exact Htb;
+      unfold Pv; reflexivity.
+Qed.
+
+Lemma op_sort_by_sim cm : sim (op_sort_by cm) (spec_sort_by cm).
+Proof.
+  intros i i' H. destruct i as [|[| |items pre im dt d sp]|t|]; unfold op_sort_by in H; try discriminate.
+  - destruct (inline_is_map (VInline items pre im dt d sp)); [|discriminate]. injection H as <-.
+    apply (proj1 (sort_by_abs cm) (VInline items pre im dt d sp)).
+  - destruct (tbl_is_map t); [|discriminate]. injection H as <-. apply (proj2 (sort_by_abs cm) t).
+Qed.
+
 (* -- conversions -- *)
 Lemma make_value_abs :
   (forall i, abs_item (make_value i) = spec_make_value (abs_item i)) /\
@@ -464,7 +516,7 @@ Proof.
   intros t o t' H. unfold apply in H.
   destruct (op_fun o) as [p f] eqn:EO. apply as_tbl_abs in H.
   change (abs t') with (abs_item (ITable t')). change (abs t) with (abs_item (ITable t)).
-  destruct o as [q k v|q k|q k|q k|q v|q i v|q i v|q i|q|q i|q|q|q k|q k|q k|ks x];
+  destruct o as [q k v|q k|q k|q k|q v|q i v|q i v|q i|q|q i|q|q|q k|q k|q k|ks x|q cm];
     simpl in EO; injection EO as <- <-; simpl spec_apply.
   - exact (at_path_sim _ _ _ (op_insert_sim k v) _ _ H).
   - exact (at_path_sim _ _ _ (op_insert_item_sim k (ITable tbl_new)) _ _ H).
@@ -483,6 +535,7 @@ Proof.
   - exact (at_path_sim _ _ _ (op_slot_sim k into_aot_slot _ into_aot_slot_abs) _ _ H).
   - simpl in H. destruct ks as [|k ks]; [discriminate|].
     rewrite <- build_item_abs. exact (iset_sim _ _ _ _ H).
+  - exact (at_path_sim _ _ _ (op_sort_by_sim cm) _ _ H).
 Qed.
 
 (* ==================================================================================== *)
@@ -636,6 +689,64 @@ Lemma e_sort_perm l : Permutation (e_sort l) l.
 Proof. apply stable_sort_perm. Qed.
 Lemma e_sort_sorted l : sorted_by (fun a b => key_leb (fst a) (fst b) = true) (e_sort l).
 Proof. apply (stable_sort_sorted kle kle_trans kle_total). Qed.
+
+(* sort_by: a permutation of the entries, in the comparator's order, entries the comparator ties keep their order *)
+Lemma rank_le_trans a b c : rank_le a b = true -> rank_le b c = true -> rank_le a c = true.
+Proof.
+  unfold rank_le. destruct a as [a1 a2], b as [b1 b2], c as [c1 c2]. cbn [fst snd]. intros H1 H2.
+  apply orb_true_iff in H1. apply orb_true_iff in H2. apply orb_true_iff.
+  rewrite !andb_true_iff, !Nat.ltb_lt, !Nat.eqb_eq, !Z.leb_le in *. lia.
+Qed.
+Lemma rank_le_total a b : rank_le a b = false -> rank_le b a = true.
+Proof.
+  unfold rank_le. destruct a as [a1 a2], b as [b1 b2]. cbn [fst snd]. intro H.
+  apply orb_false_iff in H as [H1 H2]. apply Nat.ltb_ge in H1. apply orb_true_iff.
+  rewrite andb_true_iff, Nat.ltb_lt, Nat.eqb_eq, Z.leb_le.
+  apply andb_false_iff in H2. rewrite Nat.eqb_neq, Z.leb_gt in H2. lia.
+Qed.
+Lemma scmp_base_trans cm a b c : scmp_base cm a b = true -> scmp_base cm b c = true -> scmp_base cm a c = true.
+Proof.
+  destruct cm; unfold scmp_base.
+  - intros H1 H2. exact (key_leb_trans _ _ _ H2 H1).
+  - apply rank_le_trans.
+Qed.
+Lemma scmp_base_total cm a b : scmp_base cm a b = false -> scmp_base cm b a = true.
+Proof. destruct cm; unfold scmp_base; [apply key_leb_total|apply rank_le_total]. Qed.
+Lemma scmp_le_trans cm il a b c : scmp_le cm il a b = true -> scmp_le cm il b c = true -> scmp_le cm il a c = true.
+Proof.
+  unfold scmp_le. destruct il; [|apply scmp_base_trans].
+  destruct (is_val (snd a)), (is_val (snd b)), (is_val (snd c)); try discriminate; auto. apply scmp_base_trans.
+Qed.
+Lemma scmp_le_total cm il a b : scmp_le cm il a b = false -> scmp_le cm il b a = true.
+Proof.
+  unfold scmp_le. destruct il; [|apply scmp_base_total].
+  destruct (is_val (snd a)), (is_val (snd b)); try discriminate; auto. apply scmp_base_total.
+Qed.
+
+Lemma sort_by_perm cm il l : Permutation (stable_sort (scmp_le cm il) l) l.
+Proof. apply stable_sort_perm. Qed.
+Lemma sort_by_sorted cm il l : sorted_by (fun a b => scmp_le cm il a b = true) (stable_sort (scmp_le cm il) l).
+Proof. apply (stable_sort_sorted (scmp_le cm il) (scmp_le_trans cm il) (scmp_le_total cm il)). Qed.
+
+(* stability, for any "less or equal" test: a class of entries that are pairwise tied keeps its order *)
+Lemma sorted_insert_filter {A} (le : A -> A -> bool) (p : A -> bool) x l :
+  (forall y, In y l -> p x = true -> p y = true -> le x y = true) ->
+  filter p (sorted_insert le x l) = filter p (x :: l).
+Proof.
+  induction l as [|y l IH]; intro H; [reflexivity|]. cbn [sorted_insert].
+  destruct (le x y) eqn:E; [reflexivity|].
+  cbn [filter]. rewrite IH by (intros z Hz; apply H; right; exact Hz). cbn [filter].
+  destruct (p x) eqn:Px, (p y) eqn:Py; try reflexivity.
+  rewrite (H y (or_introl eq_refl) eq_refl Py) in E. discriminate.
+Qed.
+Lemma stable_sort_stable {A} (le : A -> A -> bool) (p : A -> bool) l :
+  (forall a b, p a = true -> p b = true -> le a b = true) ->
+  filter p (stable_sort le l) = filter p l.
+Proof.
+  intro H. induction l as [|x l IH]; [reflexivity|]. cbn [stable_sort fold_right].
+  change (fold_right (sorted_insert le) [] l) with (stable_sort le l).
+  rewrite sorted_insert_filter by (intros; apply H; assumption). cbn [filter]. rewrite IH. reflexivity.
+Qed.
 
 (* vectors *)
 Lemma v_ins_spec {A} i (x : A) l : i <= length l ->
